@@ -94,6 +94,7 @@ DRIVER_HEAD = r'''
 #include <stdlib.h>
 #include <string.h>
 #include <setjmp.h>
+#include <malloc.h>
 #include "w2c2_base.h"
 #include "@HEADER@"
 typedef @M@Instance Inst;
@@ -181,6 +182,11 @@ int main(int argc, char** argv) {
       if (ns == 0) { doCall(step, inst, fk, a, 0); break; }
       for (;;) { for (i = 0; i < ns; i++) a[i] = sets[s[i]][idx[i]]; doCall(step, inst, fk, a, ns);
         k = ns - 1; while (k >= 0) { idx[k]++; if (idx[k] < setN[s[k]]) break; idx[k] = 0; k--; } if (k < 0) break; }
+      break; }
+    case 'V': { /* structural invariant of a memory descriptor at a quiescent point: the allocation backs the current size (and, for a
+                   shared memory, the declared maximum, which the runtime reserves up front): V <inst> <memref> */
+      wasmMemory* m = getMem(atoi(tok[1]), atoi(tok[2])); size_t need = (size_t)(m->shared ? m->maxPages : m->pages) * 65536u, have = m->data ? malloc_usable_size(m->data) : 0;
+      if (need == 0 || have >= need) fprintf(OUT, "%d V ok\n", step); else fprintf(OUT, "%d V BAD pages=%u max=%u shared=%d allocation=%lu needed=%lu\n", step, m->pages, m->maxPages, (int)m->shared, (unsigned long)have, (unsigned long)need);
       break; }
     case 'm': memHash(getMem(atoi(tok[1]), atoi(tok[2])), step); break;
     case 'w': { wasmMemory* m = getMem(atoi(tok[1]), atoi(tok[2])); unsigned long a = strtoul(tok[3], NULL, 0), n = strtoul(tok[4], NULL, 0), i;
